@@ -157,6 +157,11 @@ def encode(row: Dict, form: str):
     if form == "dict":
         return {"open": row["open"], "high": row["high"], "low": row["low"], "close": row["close"],
                 "volume": row["volume"], "timestamp": ts}
+    if form == "dict_iso":       # the timestamp as an ISO string
+        return {"open": row["open"], "high": row["high"], "low": row["low"], "close": row["close"],
+                "volume": row["volume"], "timestamp": ts.isoformat()}
+    if form == "candle_iso":
+        return Candle(row["open"], row["high"], row["low"], row["close"], row["volume"], timestamp=ts.isoformat())
     if form == "dict_caps":      # the capitalised spelling the library also accepts (pandas / yfinance exports)
         return {"Open": row["open"], "High": row["high"], "Low": row["low"], "Close": row["close"],
                 "Volume": row["volume"], "Timestamp": ts}
@@ -183,13 +188,13 @@ def falsify_encodings(ctx, case: Dict) -> bool:
                 containers = []
                 if batch:
                     payload = [encode(r, frm) for r in rows]
-                    keep = copy.deepcopy(payload) if frm != "candle" else None
+                    keep = copy.deepcopy(payload) if not frm.startswith("candle") else None
                     h.append(payload)
                     containers.append((payload, keep))
                 else:
                     for r in rows:
                         payload = encode(r, frm)
-                        keep = copy.deepcopy(payload) if frm != "candle" else None
+                        keep = copy.deepcopy(payload) if not frm.startswith("candle") else None
                         h.append(payload)
                         containers.append((payload, keep))
                 return h, containers
@@ -386,7 +391,7 @@ def run(ctx: core.Ctx) -> int:
         for r in rows:
             r["inds"] = {}
         spec = X.gen_spec(rng, rng.choice(["SMA", "EMA", "OBV", "TR", "VWAP", "RSI"]), inputs=("close",))
-        form = rng.choice(["dict", "dict_caps", "dict_extra", "list_ts_last", "list_ts_first", "candle"])
+        form = rng.choice(["dict", "dict_caps", "dict_extra", "dict_iso", "candle_iso", "list_ts_last", "list_ts_first", "candle"])
         c = {"spec": spec, "rows": rows, "form": form, "batch": rng.random() < 0.5, "tf": rng.choice(["T5", "T15", "H1"])}
         ctx.count("eval_falsifier")
         falsify_encodings(ctx, c)
